@@ -45,6 +45,10 @@ module Nat :
   val eqb : nat -> nat -> bool
 
   val leb : nat -> nat -> bool
+
+  val ltb : nat -> nat -> bool
+
+  val min : nat -> nat -> nat
  end
 
 module Pos :
@@ -136,6 +140,8 @@ module Z :
 
   val eqb : z -> z -> bool
 
+  val max : z -> z -> z
+
   val to_nat : z -> nat
 
   val of_nat : nat -> z
@@ -211,6 +217,10 @@ val sx_LLZ : sx -> z list list option
 
 val sx_nat : sx -> nat option
 
+val sx_Lnat : sx -> nat list option
+
+val sx_LLnat : sx -> nat list list option
+
 val sx_bool : sx -> bool option
 
 val sx_pair :
@@ -225,6 +235,8 @@ val of_bool : bool -> sx
 val of_list : ('a1 -> sx) -> 'a1 list -> sx
 
 val of_LZ : z list -> sx
+
+val of_Lnat : nat list -> sx
 
 val of_pair : ('a1 -> sx) -> ('a2 -> sx) -> ('a1 * 'a2) -> sx
 
@@ -564,5 +576,46 @@ val sx_rat : sx -> rat option
 val run_choose : sx -> sx
 
 val run_round : sx -> sx
+
+type vec = z list
+
+val zsum : vec -> z
+
+val dot : vec -> vec -> z
+
+val ccov : vec -> vec -> z
+
+val getcols : nat list -> vec -> vec
+
+val n_bootstrap : (z * z) -> nat -> z
+
+val subset_ok : (z * z) -> nat -> nat list -> bool
+
+val ckey : vec -> vec -> z * z
+
+val key_lt : (z * z) -> (z * z) -> bool
+
+val argmax_from : nat -> (z * z) -> nat -> (z * z) list -> nat
+
+val argmax : (z * z) list -> nat option
+
+val nearest : vec -> vec list -> nat list -> nat option
+
+val tally : vec -> vec list -> nat list list -> nat list option
+
+val count : ('a1 -> bool) -> 'a1 list -> nat
+
+val votes_for : z list -> nat list -> z -> nat
+
+val zdistinct : z list -> z list
+
+val sorted_desc : nat list -> bool
+
+val check_choice :
+  z list -> (z -> nat) -> nat -> z -> nat -> (z * nat) list -> bool
+
+val run_check_cell : sx -> sx
+
+val run_n_bootstrap : sx -> sx
 
 val dispatch : z -> sx -> sx
